@@ -82,7 +82,11 @@ func (c *Conn) CloseRead(ctx context.Context) context.Context {
 		defer vhook(8, c, nil, 1, 0)
 		_, _, err := c.Reader(ctx)
 		if err == nil {
-			c.Close(StatusPolicyViolation, "unexpected data message")
+			// Not c.Close: it waits for this very goroutine to exit, which made
+			// it (and every concurrent Close or CloseNow) wait for 15 seconds.
+			if c.casClosing() {
+				c.closeHandshake(StatusPolicyViolation, "unexpected data message")
+			}
 		}
 	}()
 	return ctx
